@@ -9,7 +9,7 @@ from pyvc.dsl import (Bool, Const, Dict, Enum, Ext, Int, IntElem, Obj, OneOf, Op
                       Shape, Text, TraceList, TraceReset, Tuple, contract, klass, lemma,
                       transparent, LoopContract)
 from pyvc.ext import LineElem, LINE_BLANK, LINE_CONTENT, LINE_PERCENT
-from pyvc.speclib import (conj, disj, forall, iff, implies, ite, line_kind, same, seq_appended,
+from pyvc.speclib import (conj, disj, forall, iff, implies, ite, line_kind, run_real, same, seq_appended,
                           seq_get, seq_len)
 from pyvc import strings as XS
 import spec.pbn as PBN
@@ -129,10 +129,279 @@ class _parse_stream:
         return len(result) == ite(seq_len(self.tag_pair_buffer) > 0, 1, 0)
 
 
+# ---- parse_board: tag extraction (findall over the joined lines, first occurrence wins) ----------
+
+import itertools
+
+NEEDED = ('Deal', 'Dealer', 'Vulnerable', 'Board')
+ORDERS = list(itertools.permutations(NEEDED + ('Event',)))
+
+
+def _value_atom(ctx, name):
+    return XS.XStr([(True, XS.Atom(ctx.fresh_name(name), excl=VALUE_EXCL + '\t', ws_normal=True))])
+
+
+def _game_lines(ctx, it):
+    """A game as a PBN import file may render it: the four tags a board setting needs and one
+    further tag in ANY order, a table row without brackets behind the first tag, optionally a
+    repeated Board tag with another value (must be ignored), LF or CRLF line ends."""
+    order = ORDERS[ctx.decide_among(_k(ctx, 'order', len(ORDERS)), list(range(len(ORDERS))))]
+    eol = ['\n', '\r\n'][ctx.decide_among(_k(ctx, 'eol', 2), [0, 1])]
+    dup = ctx.decide_among(_k(ctx, 'dup', 2), [0, 1])
+    vals = {t: _value_atom(ctx, 'v_' + t) for t in order}
+    lines = []
+    for j, t in enumerate(order):
+        lines.append(XS.str_concat(XS.str_concat('[' + t + ' "', vals[t]), '"]' + eol))
+        if j == 0:
+            lines.append('S A K 3 - 1' + eol)
+    if dup:
+        lines.append(XS.str_concat(XS.str_concat('[Board "', _value_atom(ctx, 'other')), '"]' + eol))
+    from pyvc.values import SList
+    ghosts = {'ghost_' + t: vals[t] for t in NEEDED}
+    return dict(self=None, ghost_lines=SList(lines), **ghosts)
+
+
+def _game_lines_fresh(ctx, it):
+    d = _game_lines(ctx, it)
+    from pyvc.values import SObj, SList
+    d['self'] = SObj(PbnParser, dict(_in_comment=False, tag_pair_buffer=d.pop('ghost_lines'),
+                                     comment_list=SList([]), comment_buffer=SList([])))
+    return d
+
+
+def _game_lines_sample(rng):
+    order = list(rng.choice(ORDERS))
+    eol = rng.choice(['\n', '\r\n'])
+    vals = {t: rng.choice(['x', 'N', 'a b', 'N:- - - -', '12', 'Both']) for t in order}
+    lines = []
+    for j, t in enumerate(order):
+        lines.append(f'[{t} "{vals[t]}"]{eol}')
+        if j == 0:
+            lines.append('S A K 3 - 1' + eol)
+    if rng.random() < 0.5:
+        lines.append(f'[Board "zz"]{eol}')
+    p = PbnParser()
+    p.tag_pair_buffer = lines
+    return dict(self=p, **{'ghost_' + t: vals[t] for t in NEEDED})
+
+
 @contract('bridge_env.data_handler.pbn_handler.parser.PbnParser.parse_board', props=P17)
-class _parse_board_abs:
+class _parse_board:
     at_calls = 'abstract'
     abstract_raises = ()
     returns = OpaqueVal('game')
-    verify = False
-    note = 'abstracted in parse_stream (its own contract is PbnParser.parse_board[tags] below)'
+    fresh_params = _game_lines_fresh
+    sample_params = _game_lines_sample
+    modifies = []
+    note = ('domain: values without quote, bracket, line break, tab or comment opener whose inner '
+            'blanks are single spaces (a run of blanks is collapsed by the parser: KNOWN FINDING)')
+
+    # each of the four tags maps to the value written first
+    def ensures_first_written_values(result, ghost_Deal, ghost_Dealer, ghost_Vulnerable,
+                                     ghost_Board):
+        return conj(result['Deal'] == ghost_Deal, result['Dealer'] == ghost_Dealer,
+                    result['Vulnerable'] == ghost_Vulnerable, result['Board'] == ghost_Board)
+
+
+# ---- parse_board_settings: Deal / Dealer / Vulnerable / Board of every game, in order ------------
+
+from pyvc.dsl import AltText
+
+GameDictShape = Dict({'Deal': PbnDealText(), 'Dealer': AltText(['N', 'E', 'S', 'W']),
+                      'Vulnerable': AltText(list(G.VUL_OF_TEXT)), 'Board': Text()})
+GamesShape = Ext('boardlist', dict(n=Int(0), reads=TraceList(), item_shape=Const(GameDictShape)))
+from pyvc.dsl import REGISTRY as _REG
+_REG.fns['bridge_env.data_handler.pbn_handler.parser.PbnParser.parse_stream'].returns = GamesShape
+
+
+def _settings_inv():
+    return True
+
+
+def _game_becomes_the_board_written(outputs, x):
+    """C17: the game's board setting has the deal written (from whichever first seat), its dealer,
+    its vulnerability in any accepted spelling, and its board id."""
+    d = PBN.parse_deal(x['Deal'])
+    b = outputs[0] if len(outputs) == 1 else None
+    return (b is not None) and conj(
+        b.hands.north == d[Player.N], b.hands.east == d[Player.E], b.hands.south == d[Player.S],
+        b.hands.west == d[Player.W], b.dealer is G.SEAT_OF_LETTER[x['Dealer']],
+        b.vul is G.VUL_OF_TEXT[x['Vulnerable']], b.board_id == x['Board'], b.dda is None)
+
+
+def _pbn_file_sample(rng):
+    """A well-formed PBN import file as a list of lines (what the statement of C17 renders)."""
+    import random as _r
+    lines = []
+    if rng.random() < 0.5:
+        lines += ['% PBN 2.1\n']
+    eol = rng.choice(['\n', '\r\n'])
+    for g in range(rng.randint(0, 3)):
+        lines += [eol] * rng.randint(0 if g == 0 else 1, 2)
+        h = Hands.generate_random_hands()
+        tags = [('Deal', h.to_pbn(rng.choice(list(Player)))), ('Dealer', rng.choice('NESW')),
+                ('Vulnerable', rng.choice(list(G.VUL_OF_TEXT))), ('Board', str(rng.randint(1, 99))),
+                ('Event', 'x y')]
+        rng.shuffle(tags)
+        for t, v in tags:
+            lines.append(f'[{t} "{v}"]{eol}')
+    lines += [eol] * rng.randint(0, 2)
+    return dict(self=PbnParser(), fp=lines)
+
+
+@contract('bridge_env.data_handler.pbn_handler.parser.PbnParser.parse_board_settings', props=P17)
+class _parse_board_settings:
+    sample_params = _pbn_file_sample
+    params = dict(fp=Seq(LineElem()))
+    modifies = ['self']
+    loops = {0: LoopContract(invariant=_settings_inv, havoc_heap=dict(outputs=TraceReset()),
+                             body_ensures=dict(
+                                 game_becomes_the_board_written=_game_becomes_the_board_written))}
+    note = ('parse_stream is used by contract: its games arrive in file order; each game is the '
+            'dictionary parse_board extracts (tag values: a canonical deal text, a seat letter, an '
+            'accepted vulnerability spelling, an id)')
+
+    def requires_no_comment_in_progress(self):
+        return not self._in_comment
+
+
+@lemma('C17-known-finding-run-of-blanks-in-a-value', props=['C17'])
+class _:
+    """Witness obligation for a known defect: a board id with two consecutive blanks."""
+    params = dict()
+
+    def ensures_id_with_two_spaces_reads_back():
+        p = PbnParser()
+        p.tag_pair_buffer = ['[Board "a  b"]\n']
+        return run_real(PbnParser.parse_board, p)['Board'] == 'a  b'
+
+
+# ---- the PBN writer (C18) ------------------------------------------------------------------------
+
+import datetime
+from bridge_env import Bid
+from contracts.json_io import FileShape
+from contracts.pbn_deal import full_or_unknown
+from contracts.score import ContractS, passed_out, valid_contract
+import spec.jsonlog as J
+
+P18 = ['C18']
+WriterShape = Obj(PbnWriter, dict(writer=FileShape))
+NameText = Text(excl=VALUE_EXCL + '\t')
+
+
+@klass('bridge_env.data_handler.pbn_handler.writer.PbnWriter', props=P18)
+class _PW:
+    shape = WriterShape
+
+
+def wout(w):
+    return w.writer.out
+
+
+def _short_line(ctx, it):
+    body = XS.XStr([(True, XS.Atom(ctx.fresh_name('text'), excl='\n'))])
+    ctx.assume_type(z3.Length(body.segs[0][1].t) <= 200)
+    end = ['"]', '"]\n'][ctx.decide_among(_k(ctx, 'nl', 2), [0, 1])]
+    return dict(string=XS.str_concat(XS.str_concat('[Tag "', body), end))
+
+
+def _fits_inv(self, string, entry):
+    # (lines that fit: the loop body never runs, the text stays what it was)
+    return len(string) <= self.MAX_LINE_CHARS and string == entry.string
+
+
+def _chunks_ok(out_before, out_after):
+    new = out_after[len(out_before):]
+    return all(len(c) <= 255 and c.endswith('\n') for c in new)
+
+
+@contract('bridge_env.data_handler.pbn_handler.writer.PbnWriter.write_line', props=P18)
+class _write_line:
+    at_calls = 'contract'
+    fresh_params = _short_line
+    sample_params = lambda rng: dict(string=rng.choice(['x', 'y\n', 'a' * 254, 'b' * 255, 'c' * 600,
+                                                         'd' * 254 + '\n', 'e' * 509]))
+    modifies = ['self.writer.out']
+    loops = {0: LoopContract(invariant=_fits_inv, havoc=dict(string=Text()), entry_snapshot=True)}
+    note = ('proved for lines that fit (at most 254 characters before the line break: one chunk, '
+            'the line itself); the chunking of longer lines is checked only natively (BOUNDED: '
+            'lengths up to 600) -- every chunk written is at most 255 characters and ends in LF')
+
+    def requires_fits_on_one_line(self, string):
+        return len(string) <= 254
+
+    def ensures_one_line(self, string, old):
+        return wout(self) == wout(old.self) + [string if string[-1] == '\n' else string + '\n']
+
+    native_ensures_chunks_bounded = ('post/one_line',
+                                     lambda self, old: _chunks_ok(wout(old.self), wout(self)))
+
+
+@contract('bridge_env.data_handler.pbn_handler.writer.PbnWriter.write_tag_pair', props=P18)
+class _write_tag_pair:
+    params = dict(tag=OneOf(list(PBN.MANDATORY_TAGS)), content=NameText)
+    modifies = ['self.writer.out']
+
+    def requires_fits_on_one_line(content):
+        return len(content) <= 200
+
+    def ensures_one_tag_line(self, tag, content, old):
+        return wout(self) == wout(old.self) + [PBN.tag_line(tag, content)]
+
+
+@contract('bridge_env.data_handler.pbn_handler.writer.PbnWriter.write_board_result', props=P18)
+class _write_board_result:
+    params = dict(event=NameText, site=NameText, date=Const(datetime.date(2026, 9, 29)),
+                  board_num=Int(1), west_player=NameText, north_player=NameText,
+                  east_player=NameText, south_player=NameText, dealer=Enum(Player), deal=HandsShape,
+                  scoring=OneOf([Scoring.IMP, Scoring.MP]), contract=ContractS,
+                  taken_tricks=Opt(Int(0, 13)))
+    modifies = ['self.writer.out']
+    note = 'names / event / site of at most 200 characters (so that no line is wrapped)'
+
+    def requires_domain(event, site, board_num, west_player, north_player, east_player,
+                        south_player, deal, contract, taken_tricks):
+        return conj(board_num <= 10 ** 9, len(event) <= 200, len(site) <= 200, len(west_player) <= 200,
+                    len(north_player) <= 200, len(east_player) <= 200, len(south_player) <= 200,
+                    full_or_unknown(deal), valid_contract(contract),
+                    (taken_tricks is None) == passed_out(contract),
+                    implies(not passed_out(contract), contract.declarer is not None))
+
+    # the fifteen mandatory tags in order with the values written, followed by the empty line that
+    # separates this game from the next
+    def ensures_one_complete_game(self, event, site, board_num, west_player, north_player,
+                                  east_player, south_player, dealer, deal, scoring, contract,
+                                  taken_tricks, old):
+        vals = PBN.export_values(event, site, '2026.09.29', board_num, west_player, north_player,
+                                 east_player, south_player, dealer, deal, scoring.value, contract,
+                                 taken_tricks)
+        return wout(self) == wout(old.self) + PBN.export_game_lines(vals)
+
+
+class ValText(Shape):
+    """A tag value as the statement renders them: no quote, bracket, line break, tab or comment
+    opener; inner blanks are single spaces."""
+
+    def sample(self, rng):
+        return rng.choice(['', 'x', 'a b', 'Tokyo 2019', 'N', '7'])
+
+    def fresh(self, ctx, name):
+        return XS.XStr([(True, XS.Atom(ctx.fresh_name(name), excl=VALUE_EXCL + '\t', ws_normal=True))])
+
+
+FIFTEEN = Tuple(*[ValText() for _ in range(15)])
+
+
+@lemma('C18-consecutive-games-are-read-back-separately', props=P18 + ['C17'])
+class _:
+    """Reader side: two games in export format, one after the other, are read back as two games
+    in the order written, each with its fifteen values."""
+    params = dict(a=FIFTEEN, b=FIFTEEN)
+
+    def ensures_two_games_with_their_values(a, b):
+        lines = PBN.export_game_lines(a) + PBN.export_game_lines(b)
+        games = run_real(PbnParser.parse_all, PbnParser(), lines)
+        return len(games) == 2 and conj(
+            forall(range(15), lambda i: games[0][PBN.MANDATORY_TAGS[i]] == a[i]),
+            forall(range(15), lambda i: games[1][PBN.MANDATORY_TAGS[i]] == b[i]))
